@@ -414,6 +414,9 @@ func Check(a reflect.Value, s *TypeSpec, v *Val, m EqMode, path string) error {
 		if !at.IsEquivalentTo(v.CT.T) {
 			return bad("compact time %v, expected %v", at, v.CT.T)
 		}
+		if m.Strict && at != v.CT.T {
+			return bad("compact time %#v, expected %#v (field by field)", at, v.CT.T)
+		}
 	case "bigint":
 		av := a.Interface().(big.Int)
 		if av.Cmp(bigIntOf(v.Num)) != 0 {
